@@ -117,6 +117,8 @@ def cases(draw, tier):
             "mode": draw(st.sampled_from(MODES)),
             "fmt": draw(st.sampled_from(FORMATS)),
             "sysinfo": draw(st.booleans()),
+            "author": draw(st.sampled_from([None, None, "j doe",
+                                            "team: hydro #2"])),
             "index": draw(st.sampled_from(["default", "default", "permuted",
                                            "gaps", "dates", "labels"])),
             "iperm": draw(st.permutations(list(range(nrow)))),
@@ -185,6 +187,8 @@ def run(case, df, tmp):
     src = tmp / "script.py"
     src.write_text("# source\n")
     kw = dict(float_format=case["fmt"], write_sys_info=case["sysinfo"])
+    if case.get("author") is not None:
+        kw["author"] = case["author"]
     labels = [f"mode:{mode}", f"fmt:{case['fmt']}",
               f"index:{case.get('index', 'default')}"]
     comment = dict(case["comment"])
@@ -279,6 +283,10 @@ def run(case, df, tmp):
         if ":" in v:
             nt = True
             labels.append("comment:colon")
+    if case.get("author") is not None and \
+            com.get("author") != case["author"]:
+        raise Violation(f"author given as {case['author']!r}, read back "
+                        f"{com.get('author')!r}")
     if com.get("nrow") != str(len(df)) or com.get("ncol") != str(df.shape[1]):
         raise Violation(f"nrow/ncol recorded as {com.get('nrow')!r}/"
                         f"{com.get('ncol')!r} for shape {df.shape}")
